@@ -37,7 +37,7 @@ var Check = &vrt.Check{
 	Assumptions: []string{
 		"confinement is the claim: a call that fails, panics or ends the process (mailbox.SetSent calls log.Fatalf when the rename fails) is not a violation by itself; the jail is diffed from outside when the child dies",
 		"differences are looked for in path set, type/mode, size, mtime, inode and content hash (regular files) or target (symlinks); access times are not part of the snapshot (the property speaks of create/modify/rename/delete)",
-		"symbolic links planted inside the mailbox by a local user are out of scope (the identifiers come from the remote station)",
+		"mailbox FOLDERS that are symbolic links to other places are out of scope (where the folders live is the local configuration); message FILES that are symbolic links to files elsewhere are in scope: the remote station's use of that identifier must not reach through the link",
 	},
 	Plan:          plan,
 	Run:           run,
@@ -215,6 +215,25 @@ func plan(seed int64, tier string) []vrt.Case {
 			sess = append(sess, mboxkit.Op{Kind: "inbound-hdr", MID: []byte(fmt.Sprintf("HDR%d", hi)), Arg: arg, Note: "header:" + strings.ToLower(hn)})
 			sess = append(sess, mboxkit.Op{Kind: "session", MID: []byte(fmt.Sprintf("HDS%d", hi)), Arg: mustArg(b2fx.SessionJailArg{HeaderMID: []byte(fmt.Sprintf("HDS%d", hi)), LibMaster: hi%2 == 0, Extra: extra}), Note: "header:" + strings.ToLower(hn) + "/session"})
 		}
+	}
+	// message files of the mailbox that are symbolic links to files kept elsewhere (planted by the harness as a local
+	// user or an archiving tool would), and the remote station using exactly those - ordinary - identifiers
+	li := 0
+	var linked []mboxkit.Op
+	for _, target := range []string{"/abs/x.b2f", "/l1/decoy.b2f", "../../x.b2f", "../../../other/in/x.b2f", "/etc/passwd", "/abs/empty.b2f", "/l1/l2/l3/l4/l5/l6/link.b2f", "/abs/not-there-yet.b2f"} {
+		for _, k := range []struct{ folder, kind string }{{"in", "ProcessInbound"}, {"in", "ProcessInbound(parsed)"}, {"in", "GetInboundAnswer"}, {"in", "session"}, {"out", "SetSent"}, {"out", "SetDeferred"}, {"in", "batch-good-baddate-hostile"}} {
+			li++
+			mid := fmt.Sprintf("LINKED%06d", li)
+			linked = append(linked, mboxkit.Op{Kind: "plant-link", MID: []byte(mid), Arg: mustArg(k.folder + "|" + target), Note: "linked/plant"})
+			op := mboxkit.Op{Kind: strings.TrimSuffix(k.kind, "(parsed)"), Parsed: strings.HasSuffix(k.kind, "(parsed)"), MID: []byte(mid), Note: "linked:" + target}
+			if k.kind == "session" {
+				op.Arg = mustArg(b2fx.SessionJailArg{HeaderMID: []byte(mid), LibMaster: li%2 == 0})
+			}
+			linked = append(linked, op)
+		}
+	}
+	for lo := 0; lo < len(linked); lo += 14 {
+		cs = append(cs, vrt.Case{ID: fmt.Sprintf("linked-%d", lo), TimeoutS: 900, Params: vrt.MustParams(params{Ops: linked[lo:min(lo+14, len(linked))]})})
 	}
 	// the handler value pointed at another mailbox directory (history, independent of remote content)
 	for i := 0; i < 6; i++ {
